@@ -38,6 +38,9 @@ CLAIMED = {
  "C15": ("exploration", "metamorphic property-based testing: history vs history with an inserted split and restated later rows",
          "Window scenarios built so that the restated history is exactly representable (quantities multiples of 3, later per-share amounts multiples of a) are run with and without an a-for-b split (16 ratios: forward, reverse, fractional; one row for all or one per affiliate; any position relative to the loss sale's window); gains, superficial losses, total ACB and adjustments must agree and share balances scale by a/b.",
          "Base histories contain no other split. Differences explained by the recorded rounding-residue findings (R1b/R5) are excluded by their classifiers.", "DESIGN.md section 4 C15"),
+ "C11": ("exploration", "round-trip property-based testing (write -> read -> compare -> write -> compare bytes)",
+         "Generated lists of valid transactions (all actions, 28-digit decimals, every affiliate spelling, split-ratio forms, declared SfL with force flag, hostile memos) are written with write_txs_to_csv, re-read with parse_tx_csv + Tx::try_from, compared field by field, and written again; the bytes must repeat.",
+         "Transactions are built through the library's own public types; split-ratio terms below 1e9.", "DESIGN.md section 4 C11"),
 }
 NOT_YET = "check not built yet in this round (planned: see DESIGN.md section 4)"
 
